@@ -309,6 +309,8 @@ struct ListenerRegistry {
     by_rid: HashMap<String, mpsc::Sender<(RtpPacket, SocketAddr)>>,
     by_mid: HashMap<String, mpsc::Sender<(RtpPacket, SocketAddr)>>,
     routes: Vec<ListenerRoute>,
+    /// `by_ssrc` is swept for closed senders when it reaches this size (see `bind_ssrc_from_packet`).
+    ssrc_sweep_at: usize,
 }
 
 #[derive(Clone)]
@@ -418,8 +420,23 @@ impl ListenerRegistry {
         selected.cloned()
     }
 
+    /// Explicit registration (signalling): closed senders are dropped first.
     fn bind_ssrc_route(&mut self, ssrc: u32, tx: mpsc::Sender<(RtpPacket, SocketAddr)>) {
         self.by_ssrc.retain(|_, existing| !existing.is_closed());
+        self.ssrc_sweep_at = (self.by_ssrc.len() * 2).max(16);
+        self.by_ssrc.insert(ssrc, tx);
+    }
+
+    /// Binding learned from a received packet. Entries whose receiver is gone are dropped
+    /// here too, but not by scanning the whole map for every newly seen SSRC: a peer that
+    /// uses a new SSRC in each packet made that scan quadratic in the number of packets,
+    /// under the listeners lock. Sweep when the map has doubled since the last sweep
+    /// (amortised constant per bind).
+    fn bind_ssrc_from_packet(&mut self, ssrc: u32, tx: mpsc::Sender<(RtpPacket, SocketAddr)>) {
+        if self.by_ssrc.len() >= self.ssrc_sweep_at {
+            self.by_ssrc.retain(|_, existing| !existing.is_closed());
+            self.ssrc_sweep_at = (self.by_ssrc.len() * 2).max(16);
+        }
         self.by_ssrc.insert(ssrc, tx);
     }
 
@@ -1167,7 +1184,7 @@ impl PacketReceiver for RtpTransport {
                 if let Some(tx) = selected.as_ref()
                     && bind_ssrc
                 {
-                    listeners.bind_ssrc_route(ssrc, tx.clone());
+                    listeners.bind_ssrc_from_packet(ssrc, tx.clone());
                 }
 
                 selected
